@@ -433,7 +433,8 @@ def run_check(prop, module, tier, seed, replay=None):
     bad_params = [p for p in ctx.params if not p['ok']]
     broken = (not gate['ok']) or bool(bad_params) or bool(ctx.disagreements)
 
-    if broken and not ctx.violations and hasattr(module, 'search'):
+    known_now = {k['signature'] for k in known}
+    if broken and not [v for v in ctx.violations if v['signature'] not in known_now] and hasattr(module, 'search'):
         # failing-input search with the spec-on-impl oracle
         ctx.searching = True
         ctx.scale = max(ctx.scale, 5)
